@@ -270,6 +270,22 @@ def dump_doc(doc) -> str:
 
 
 # ---------------------------------------------------------------- building documents from specs
+import atexit  # noqa: E402
+import itertools  # noqa: E402
+import shutil  # noqa: E402
+
+_SCRATCH = None
+_COUNTER = itertools.count()
+
+
+def scratch_dir() -> str:
+    """Per-process scratch directory outside /repo and /verif, removed at exit."""
+    global _SCRATCH
+    if _SCRATCH is None:
+        _SCRATCH = tempfile.mkdtemp(prefix="rtfverif_scratch_")
+        atexit.register(lambda: shutil.rmtree(_SCRATCH, ignore_errors=True))
+    return _SCRATCH
+
 COMPONENTS = {
     "page": rtf.RTFPage,
     "page_header": rtf.RTFPageHeader,
@@ -310,7 +326,16 @@ def build(spec: dict):
     """Construct the real RTFDocument described by a JSON-able spec."""
     kw = {}
     if "figure" in spec:
-        kw["rtf_figure"] = rtf.RTFFigure(**spec["figure"])
+        fig = dict(spec["figure"])
+        files = fig.pop("files")
+        paths = []
+        for i, f in enumerate(files):
+            path = os.path.join(scratch_dir(), f"fig_{next(_COUNTER)}_{i}{f['suffix']}")
+            with open(path, "wb") as fh:
+                fh.write(bytes.fromhex(f["hex"]))
+            paths.append(path)
+        fig["figures"] = paths if len(paths) > 1 or fig.pop("_as_list", True) else paths[0]
+        kw["rtf_figure"] = rtf.RTFFigure(**fig)
     elif "sections" in spec:
         kw["df"] = [make_df(s["df"]) for s in spec["sections"]]
         kw["rtf_body"] = [rtf.RTFBody(**s.get("body", {})) for s in spec["sections"]]
